@@ -45,6 +45,10 @@ PANIC_API = [
     (r"^base64::(decode::decode_config_slice|encode::encode_config_slice|decode_config_slice|encode_config_slice)$", "output slice too small"),
     (r"^core::num::<impl (u|i)\d+>::(pow|abs|div_euclid|rem_euclid|next_power_of_two)$", "arithmetic overflow"),
     (r"^core::num::<impl (u|i)size>::(pow|abs|div_euclid|rem_euclid|next_power_of_two)$", "arithmetic overflow"),
+    # integer operators applied to references (or called as functions) are calls into core: the overflow / zero-divisor check sits in core's body, not in the caller's MIR
+    (r"^<&?(u|i)(\d+|size) as core::ops::arith::(Add|Sub|Mul|Neg)(<.*>)?>::(add|sub|mul|neg)$", "arithmetic overflow (integer operator on a reference)"),
+    (r"^<&?(u|i)(\d+|size) as core::ops::arith::(Div|Rem)(<.*>)?>::(div|rem)$", "division by zero / overflow (integer operator on a reference)"),
+    (r"^<(u|i)(\d+|size) as core::ops::arith::(Add|Sub|Mul|Div|Rem)Assign<.*>>::(add|sub|mul|div|rem)_assign$", "arithmetic overflow / division by zero (compound assignment with a reference)"),
     (r"^core::char::methods::<impl char>::(to_digit|is_digit|from_digit)$", "radix out of range"),
     (r"^core::char::convert::from_digit$", "radix out of range"),
     (r"^core::slice::<impl \[T\]>::(first|last|get|get_mut|iter|len|is_empty|contains|to_vec|reverse|sort_by|iter_mut|last_mut|as_ptr|as_mut_ptr|join|concat|starts_with|ends_with)$", None),
@@ -1032,6 +1036,23 @@ def discharge(F, A, s):
             src = call_source(A, args[0]) if args else None
             if src and always_variant(F, src, want):
                 return ("total-callee", "%s returns %s on every path" % (src, want))
+            return None
+        full = ((s.call or {}).get("f") or {}).get("p") or ""
+        if re.search(r"^<&?(u|i)(\d+|size) as core::ops::arith::(Div|Rem)(<.*>)?>::(div|rem)$", full) and len(args) == 2:
+            # integer division written as a call (`x.rem(60)`, `&a / b`): a constant divisor other than 0 and -1 can neither divide by zero nor overflow (MIN / -1)
+            d = A.sym(args[1])
+            if d[0] == "c" and d[1] not in (0, -1):
+                return ("const-divisor", "divisor is the constant %d (neither 0 nor -1)" % d[1])
+            return None
+        if re.search(r"Vec::<>::(remove|swap_remove)$", p) and len(args) >= 2:
+            r = A.operand_root(args[0])
+            ix = A.sym(args[1])
+            if ix[0] == "c":
+                lb = A.len_lower_bound(r, facts)
+                if lb > ix[1]:
+                    return ("len-guard", "removal at index %d under a dominating test establishing len >= %d" % (ix[1], lb))
+            elif ix[0] != "?" and A.less_than(ix, ("len", r), facts):
+                return ("index-guard", "dominating comparison establishes index < len")
             return None
         if p.endswith("Vec::<>::insert") and len(args) >= 2:
             ix = A.sym(args[1])
